@@ -512,10 +512,26 @@ func runWriterShared(p *WProg, fault *WFault, id string, g *shareGroup) (evs []E
 	now := time.Now()
 	r.dls = map[string]time.Time{"d1": now.Add(time.Hour), "d2": now.Add(2 * time.Hour), "past": now.Add(-time.Hour)}
 	conns := make([]Ev, len(p.Conns))
+	// connections that share a pool take whatever buffer the pool hands out: the guaranteed buffer size of a pooled
+	// connection is the smallest size configured among the sharers (only "a control message larger than the buffer may
+	// be rejected" depends on it)
+	minPooled := 0
+	for _, c := range p.Conns {
+		wb := c.WBuf
+		if wb <= 0 {
+			wb = 4096
+		}
+		if c.Pool && (minPooled == 0 || wb < minPooled) {
+			minPooled = wb
+		}
+	}
 	for i, c := range p.Conns {
 		wb := c.WBuf
 		if wb <= 0 {
 			wb = 4096
+		}
+		if c.Pool && minPooled > 0 {
+			wb = minPooled
 		}
 		conns[i] = Ev{"role": c.Role, "pmce": c.Pmce, "wbuf": wb, "pool": c.Pool}
 	}
@@ -738,6 +754,8 @@ func (r *writerRun) exec(fault *WFault, outp *[]Ev) (out []Ev) {
 			var n int
 			n, err = wc.prevW.Write(payFor(p.Seed, 900+len(out), websocket.TextMessage, 3))
 			ev["ret"] = n
+			// ... and a second Close of it fails as well and releases nothing a second time
+			ev["cerr"] = r.classifyW(wc.prevW.Close())
 			ev["tx"] = r.takeTx()
 		case "WJB":
 			// WriteJSON of a value encoding/json cannot encode
